@@ -122,7 +122,8 @@ impl<T> Handle<G<T>, Message<T, Tok_sink_talkback>> for SinkH {
         else { true }
     }
     open spec fn post(&self, g: G<T>, m: Message<T, Tok_sink_talkback>) -> G<T> { G { dn: dn_send(g.dn, m), ddepth: g.ddepth + (if m is Terminate || m is Error { 0nat } else { bump(m) }), ..g } }
-    open spec fn needs_inv(&self, g: G<T>, m: Message<T, Tok_sink_talkback>) -> bool { !(m is Terminate || m is Error) }
+    open spec fn needs_inv(&self, g: G<T>, m: Message<T, Tok_sink_talkback>, p: int) -> bool { !(m is Terminate || m is Error) }
+    open spec fn extra(&self, h: Self::HH, g: G<T>, c: Self::CC, m: Message<T, Tok_sink_talkback>) -> bool { true }
 }
 impl SinkH {
     /// from_iter delivers `m` to its sink
@@ -130,11 +131,12 @@ impl SinkH {
     pub fn call<T>(&self, h: &mut Heap<T>, g: &mut Ghost<G<T>>, c: &Cap, m: Message<T, Tok_sink_talkback>)
         requires
             GATES!(self, *old(h), old(g)@, *c, m),
-            self.needs_inv(old(g)@, m) ==> INV!(*old(h), self.post(old(g)@, m), *c),
+            self.extra(*old(h), old(g)@, *c, m),
+            self.needs_inv(old(g)@, m, $P) ==> INV!(*old(h), self.post(old(g)@, m), *c),
         ensures
-            self.needs_inv(old(g)@, m) ==> INV!(*final(h), final(g)@, *c),
+            self.needs_inv(old(g)@, m, $P) ==> INV!(*final(h), final(g)@, *c),
             mono(*old(h), G { ddepth: old(g)@.ddepth, ..self.post(old(g)@, m) }, *final(h), final(g)@),
-            !self.needs_inv(old(g)@, m) ==> *final(h) == *old(h) && final(g)@ == self.post(old(g)@, m),
+            !self.needs_inv(old(g)@, m, 0) ==> *final(h) == *old(h) && final(g)@ == self.post(old(g)@, m),
     {
         proof { g@ = self.post(g@, m); }
         if matches!(m, Message::Terminate | Message::Error(_)) { return; }  // a terminated sink is silent
